@@ -805,6 +805,8 @@ class Engine:
         for path in list(self.process_paths.keys()):
             if starts_with(path, deletion):
                 del self.process_paths[path]
+                # a process created at this path later on starts afresh
+                self.front.pop(path, None)
 
         for path in list(self._step_paths):
             if starts_with(path, deletion):
